@@ -47,16 +47,17 @@ def run(ck):
     d1 = km.datasets(n1, 1, vals)
     c1 = km.initsets(2, 1, vals)
     comps = list(km.compositions(n1))
-    recs += model_run(ck, "stats-1d-k2", n1, 1, 2, rng.sample(d1, 30) if quick else d1, c1, comps, coverage=not quick)
+    recs += model_run(ck, "stats-1d-k2", n1, 1, 2, rng.sample(d1, 30) if quick else rng.sample(d1, min(len(d1), 60)), c1, comps,
+                      coverage=not quick)
     vals2 = [0, 1, 3]
     n2 = 4 if quick else 5
-    d2 = rng.sample(km.datasets(n2, 2, vals2), 25 if quick else 250)
-    c2 = rng.sample(km.initsets(3, 2, vals2), 6 if quick else 20)
+    d2 = rng.sample(km.datasets(n2, 2, vals2), 25 if quick else 40)
+    c2 = rng.sample(km.initsets(3, 2, vals2), 6 if quick else 8)
     comps2 = [c for c in km.compositions(n2) if len(c) <= (2 if quick else 3)]
     recs += model_run(ck, "stats-2d-k3", n2, 2, 3, d2, c2, comps2, coverage=not quick)
     ck.exhaustive = True
-    if quick and len(recs) > 170:
-        recs = rng.sample(recs, 170)
+    if len(recs) > (170 if quick else 700):
+        recs = rng.sample(recs, 170 if quick else 700)
     for rec in recs:
         replay(ck, em, rec, rng)
     stored_narrow(ck, em, rng, 12 if quick else 150)
